@@ -23,13 +23,11 @@ def reqRules (method scheme authority path : Option Bytes) (hasProto : Bool) (st
   (if hasProto && !(isConnect && ecp) then ["protocol-without-extended-connect"] else [])
 
 /-- what the server accepts: `convert_poll_message` succeeds, no `:status`, `:protocol` only with the
-    extended CONNECT setting.  Every request rule holds except two shapes without `:authority`. -/
+    extended CONNECT setting.  Every request rule holds. -/
 theorem convert_ok_rules (h : HeadersIn) (ecp : Bool) (m u : Bytes)
     (hc : convertPollMessageServer h = .ok m u) (hst : h.status = none)
     (hpr : h.hasProtocol = true → ecp = true) :
-    ∀ r ∈ reqRules h.method h.scheme h.authority h.path h.hasProtocol h.status ecp,
-      (r = "connect-without-authority" ∧ h.method = some (Spec.Http.ascii "CONNECT") ∧ h.authority = none) ∨
-      (r = "missing-path" ∧ h.authority = none ∧ h.path = none) := by
+    reqRules h.method h.scheme h.authority h.path h.hasProtocol h.status ecp = [] := by
   obtain ⟨sid, eos, status, method, scheme, authority, path, hasProtocol, fields, over⟩ := h
   simp only at hst hpr ⊢
   subst hst
